@@ -229,4 +229,14 @@ theorem zobrist_place_piece (h : BB) (p : Piece) (sq : Nat) (isP1 sw1 sw2 : Bool
     · cases stepValuePanics 0 <;> cases sw1 <;> rfl
   · rfl
 
+theorem current_step_play (s : GameState) (pp : PlayPhase) (hp : s.phase = .play pp) :
+    GameState_current_step s = .ok pp.step := by
+  rw [current_step]
+  simp [GameState.stepPanics, GameState.unwrapPlayPhasePanics, GameState.isPlay, GameState.playPhase?, hp,
+    GameState.step, Res.guard]
+
+theorem current_step_place (s : GameState) (hp : s.phase = .place) : GameState_current_step s = .panic := by
+  rw [current_step]
+  simp [GameState.stepPanics, GameState.unwrapPlayPhasePanics, GameState.isPlay, GameState.playPhase?, hp, Res.guard]
+
 end Arimaa.RsAgree
